@@ -149,8 +149,22 @@ class _Canonical(ast.NodeTransformer):
                 if isinstance(f, ast.Attribute) and isinstance(f.value, ast.Name) and f.value.id in ("logger", "logging") \
                         and f.attr in ("debug", "info", "warning", "warn", "error", "exception", "critical", "log"):
                     continue
-            if isinstance(st, ast.Assign) and len(st.targets) == 1 and isinstance(st.targets[0], ast.Name) and isinstance(st.value, ast.Name) and st.targets[0].id == st.value.id:
-                continue                    # x = x
+            if isinstance(st, ast.AugAssign) and isinstance(st.op, ast.BitOr) and isinstance(st.target, ast.Name) and isinstance(st.value, ast.BinOp) and isinstance(st.value.op, ast.BitOr) \
+                    and not any(isinstance(x, (ast.Call, ast.NamedExpr, ast.Await, ast.Yield)) or (isinstance(x, ast.Name) and x.id == st.target.id) for x in ast.walk(st.value)):
+                # x |= A | B  ->  x |= A; x |= B   (A, B without calls and not reading x)
+                terms, todo = [], [st.value]
+                while todo:
+                    e = todo.pop()
+                    if isinstance(e, ast.BinOp) and isinstance(e.op, ast.BitOr):
+                        todo += [e.right, e.left]
+                    else:
+                        terms.append(e)
+                for e in terms:
+                    out.append(ast.copy_location(ast.AugAssign(target=ast.Name(id=st.target.id, ctx=ast.Store()), op=ast.BitOr(), value=e), st))
+                continue
+            if isinstance(st, ast.Assign) and len(st.targets) == 1 and isinstance(st.targets[0], ast.Name) and isinstance(st.value, ast.Name) \
+                    and (st.targets[0].id == st.value.id or st.targets[0].id == "_"):
+                continue                    # x = x, _ = x
             if isinstance(st, ast.Assign) and len(st.targets) == 1 and isinstance(st.targets[0], ast.Subscript) and isinstance(st.targets[0].slice, ast.Slice) \
                     and isinstance(st.value, ast.Constant) and st.value.value in (b"", "") and st.targets[0].slice.step is None \
                     and isinstance(st.targets[0].slice.lower, ast.Constant) and isinstance(st.targets[0].slice.upper, ast.Constant) \
@@ -205,6 +219,15 @@ class _Canonical(ast.NodeTransformer):
             node.body = [_Ann().visit(st) if not isinstance(st, (ast.FunctionDef, ast.ClassDef)) else st for st in node.body]
         _strip_tail(node.body, ast.Return)
         _tail_loop_returns(node.body)
+        # a name bound by tuple unpacking and never read is `_`
+        if not any(isinstance(x, (ast.Global, ast.Nonlocal)) for x in ast.walk(node)):
+            loaded = {x.id for x in ast.walk(node) if isinstance(x, ast.Name) and isinstance(x.ctx, ast.Load)}
+            for x in ast.walk(node):
+                if isinstance(x, ast.Assign) and len(x.targets) == 1 and isinstance(x.targets[0], ast.Tuple):
+                    for e in x.targets[0].elts:
+                        if isinstance(e, ast.Name) and e.id not in loaded and e.id != "_":
+                            if sum(1 for y in ast.walk(node) if isinstance(y, ast.Name) and y.id == e.id) == 1:
+                                e.id = "_"
         for lp in ast.walk(node):
             if isinstance(lp, (ast.For, ast.While)):
                 _strip_tail(lp.body, ast.Continue)
@@ -406,6 +429,28 @@ def _rename_locals(fn: ast.FunctionDef, template) -> None:
                 if y != x:
                     if mapping.get(y, x) != x:
                         return                       # inconsistent: leave the function alone
+                    mapping[y] = x
+    # bindings the order-preserving match left over: a shape that occurs once among the left-overs on either side pairs up
+    m_a, m_b = set(), set()
+    for blk in difflib.SequenceMatcher(None, a, b, autojunk=False).get_matching_blocks():
+        for k in range(blk.size):
+            m_a.add(blk.a + k)
+            m_b.add(blk.b + k)
+    rest_a = [i for i in range(len(a)) if i not in m_a]
+    rest_b = [i for i in range(len(b)) if i not in m_b]
+    for i in rest_a:
+        same_a = [k for k in rest_a if a[k] == a[i]]
+        same_b = [k for k in rest_b if b[k] == a[i]]
+        if len(same_a) == 1 and len(same_b) == 1:
+            tn, cn = template[i][1], cur[same_b[0]][1]
+            if len(tn) == len(cn):
+                for x, y in zip(tn, cn):
+                    if y in known_names or y == x:
+                        continue
+                    if x in mapping.values() or y in mapping:
+                        continue
+                    if any(x in ns for _s, ns in cur):
+                        continue                # the reference name is bound elsewhere in the current function already
                     mapping[y] = x
     if not mapping:
         return
@@ -842,14 +887,14 @@ def _extract_toward_reference(fn: ast.FunctionDef, ref_fn: dict, known: set) -> 
     cand = {}
     for st in ast.walk(rtree):
         if isinstance(st, ast.Assign) and len(st.targets) == 1 and isinstance(st.targets[0], ast.Name) and st.targets[0].id in known \
-                and not isinstance(st.value, (ast.Name, ast.Constant)):
+                and (not isinstance(st.value, (ast.Name, ast.Constant)) or (isinstance(st.value, ast.Name) and st.value.id.isupper() and len(st.value.id) > 3)):
             cand.setdefault(st.targets[0].id, []).append(st.value)
     present = {x.id for x in ast.walk(fn) if isinstance(x, ast.Name)}
     for x, values in cand.items():
         if x in present or len(values) != 1:
             continue
         txt = ast.unparse(values[0])
-        hits = [n for n in ast.walk(fn) if isinstance(n, ast.expr) and not isinstance(n, (ast.Name, ast.Constant)) and ast.unparse(n) == txt]
+        hits = [n for n in ast.walk(fn) if isinstance(n, ast.expr) and not isinstance(n, ast.Constant) and (not isinstance(n, ast.Name) or isinstance(n.ctx, ast.Load)) and ast.unparse(n) == txt]
         # nested hits (E inside E) cannot happen for equal texts; hits inside nested functions are out
         if not hits or any(isinstance(f_, (ast.FunctionDef, ast.Lambda)) and f_ is not fn and any(h_ is y for h_ in hits for y in ast.walk(f_)) for f_ in ast.walk(fn)):
             continue
@@ -889,6 +934,37 @@ def _extract_toward_reference(fn: ast.FunctionDef, ref_fn: dict, known: set) -> 
                 break
         if done:
             return _extract_toward_reference(fn, ref_fn, known)
+
+
+def _fuse_unpack_stores(fn: ast.FunctionDef, known: set) -> None:
+    """`a, b = X` / `self.p = a` / `self.q = b` with a, b fresh and not read otherwise  ->  `self.p, self.q = X`."""
+    for blk in _fn_blocks(fn):
+        for i, st in enumerate(blk):
+            if not (isinstance(st, ast.Assign) and len(st.targets) == 1 and isinstance(st.targets[0], ast.Tuple) and all(isinstance(e, ast.Name) for e in st.targets[0].elts)):
+                continue
+            elts = st.targets[0].elts
+            k = i + 1
+            fused = False
+            order = []
+            while k < len(blk):
+                nx = blk[k]
+                if not (isinstance(nx, ast.Assign) and len(nx.targets) == 1 and isinstance(nx.targets[0], ast.Attribute) and isinstance(nx.targets[0].value, ast.Name)
+                        and nx.targets[0].value.id == "self" and isinstance(nx.value, ast.Name)):
+                    break
+                nm = nx.value.id
+                idx = next((j for j, e in enumerate(elts) if isinstance(e, ast.Name) and e.id == nm), None)
+                if idx is None or nm in known or nm == "_":
+                    break
+                occ = [x for x in ast.walk(fn) if isinstance(x, ast.Name) and x.id == nm]
+                if len(occ) != 2 or (order and idx < order[-1]):
+                    break
+                order.append(idx)
+                elts[idx] = ast.copy_location(ast.Attribute(value=ast.Name(id="self", ctx=ast.Load()), attr=nx.targets[0].attr, ctx=ast.Store()), elts[idx])
+                del blk[k]
+                fused = True
+            if fused:
+                ast.fix_missing_locations(fn)
+                return _fuse_unpack_stores(fn, known)
 
 
 def _merge_name_alias(fn: ast.FunctionDef, known: set) -> None:
@@ -1218,6 +1294,7 @@ def canonicalise(tree: ast.Module, rel: str = "") -> ast.Module:
                         _delay_snapshot_mutation(n, known)
                         _dissolve_setdefault_alias(n, known)
                         _merge_name_alias(n, known)
+                        _fuse_unpack_stores(n, known)
                         _inline_fresh_temps(n, known, multi=False)
                         shape()
                         rename()
